@@ -206,6 +206,19 @@ func CoeffLen(r *rng.R, p int64) int64 {
 // 127, 128, 129 bits) or of 10^19/10^20 (the uint64 decimal boundary).
 func BoundaryCoeff(r *rng.R) *big.Int {
 	var v *big.Int
+	if r.Chance(1, 3) {
+		// 2^a * 10^b (+/- a small d): the values on which binary words and
+		// decimal digit groups are zero at the same time
+		v = new(big.Int).Lsh(big.NewInt(1), uint(r.Intn(129)))
+		v.Mul(v, dec.Pow10(int64(r.Intn(41))))
+		if r.Chance(1, 2) {
+			v.Add(v, big.NewInt(r.Range(-2, 2)))
+		}
+		if v.Sign() <= 0 {
+			v.SetInt64(1)
+		}
+		return v
+	}
 	if r.Chance(1, 4) {
 		v = new(big.Int).Set(dec.Pow10(int64(18 + r.Intn(4))))
 	} else {
